@@ -95,7 +95,7 @@ def nontrivial(prog, steps):
 
 def main(argv):
     return rcheck.run(
-        PID, argv, module=None, theorems=THEOREMS, gen=gen, oracle=oracle, nontrivial=nontrivial,
+        PID, argv, module="C01", theorems=['C01_loop_consistent_partial', 'C01_loop_invariant', 'C01_late_read_refuted'], bridge=1500, extra_targets=["theories/Reactive/Bridge.vo"], gen=gen, oracle=oracle, nontrivial=nontrivial,
         rule=("small family: <=2 signals, <=3 derived nodes from templates (double, sum, conditional read, selector mod 2, effect) "
               "x <=2 writes, sampled without replacement; random family: programs with nested creation, conditional and untracked "
               "reads, selectors, effects (some writing signals), scopes, batches, disposals; non-trivial = some derived value and "
